@@ -11,6 +11,7 @@ import (
 	"math/rand"
 	"sort"
 	"strings"
+	"time"
 
 	"gorm.io/gorm"
 
@@ -404,15 +405,42 @@ func replay(args []string) error {
 		if err := json.Unmarshal(lines[i], &c); err != nil {
 			return err
 		}
-		for _, e := range envs {
-			r, err := e.Run(c.Prog)
+		for k, e := range envs {
+			r, err, fresh := runGuarded(e, c.Prog)
 			if err != nil {
 				return fmt.Errorf("case %d: %v", i, err)
 			}
 			w.Emit(Event(i+1, e.cfg, c.Prog, r))
+			if fresh {
+				if envs[k], err = NewEnv(e.cfg); err != nil {
+					return err
+				}
+			}
 		}
 	}
 	return nil
+}
+
+// runGuarded runs one program under a watchdog. A program that does not return within 30 s is
+// reported with result "hang" (a transaction or connection it leaked blocks the database); after a
+// hang or a leak (connection still checked out, transaction still open) the environment is poisoned
+// and the caller continues on a fresh one.
+func runGuarded(e *Env, prog []Act) (Result, error, bool) {
+	type out struct {
+		r   Result
+		err error
+	}
+	ch := make(chan out, 1)
+	go func() {
+		r, err := e.Run(prog)
+		ch <- out{r, err}
+	}()
+	select {
+	case o := <-ch:
+		return o.r, o.err, o.r.InUse != 0 || o.r.OpenTx != 0
+	case <-time.After(30 * time.Second):
+		return Result{Res: "hang", Text: "the program did not return within 30 s", InUse: e.sql.Stats().InUse, OpenTx: e.rec.OpenTx()}, nil, true
+	}
 }
 
 // random: direction B -- deeper random programs, all 8 configurations.
@@ -437,18 +465,24 @@ func random(args []string) error {
 		envs = append(envs, e)
 	}
 	for i := 0; i < *n; i++ {
-		e := envs[rng.Intn(8)]
+		k := rng.Intn(8)
+		e := envs[k]
 		var prog []Act
 		if rng.Intn(5) == 0 {
 			prog = randManual(rng)
 		} else {
 			prog = randBlocks(rng, !e.cfg.NoNest)
 		}
-		r, err := e.Run(prog)
+		r, err, fresh := runGuarded(e, prog)
 		if err != nil {
 			return fmt.Errorf("case %d: %v", i, err)
 		}
 		w.Emit(Event(i+1, e.cfg, prog, r))
+		if fresh {
+			if envs[k], err = NewEnv(e.cfg); err != nil {
+				return err
+			}
+		}
 	}
 	return nil
 }
